@@ -76,6 +76,8 @@ def sock_stubs(frames: Optional[Callable] = None, extra=None) -> Dict[str, Calla
     st["_logging:warning"] = lambda *a: NONE
     st["_logging:trace"] = lambda *a: NONE
     st["inspect.stack"] = lambda I, run, a, k, n: Tup(())
+    st.setdefault("_url:parse_url", lambda I, run, a, k, n: Tup((Sym("url.host", "str"), C(80), Sym("url.resource", "str"), FALSE)))
+    st.setdefault("_socket:getdefaulttimeout", lambda *a: NONE)
     if extra:
         st.update(extra)
     return st
@@ -108,16 +110,58 @@ def frame_source(ops=("TEXT", "BINARY", "CONT", "CLOSE", "PING", "PONG"), errors
     return f
 
 
+_RF_PARAMS = ("sockopt", "sslopt", "ping_interval", "ping_timeout", "ping_payload", "http_proxy_host", "http_proxy_port", "http_no_proxy", "http_proxy_auth",
+              "http_proxy_timeout", "skip_utf8_validation", "host", "origin", "dispatcher", "suppress_origin", "proxy_type", "reconnect")
+
+
 def closure_env(run: Run, app: Ref, **over) -> Dict[str, Value]:
-    env = {
-        "self": app, "sockopt": Tup(()), "sslopt": new_dict(run, {}, False, "sslopt"), "ping_interval": C(0), "ping_timeout": NONE,
-        "ping_payload": C(""), "http_proxy_host": NONE, "http_proxy_port": NONE, "http_no_proxy": NONE, "http_proxy_auth": NONE,
-        "http_proxy_timeout": NONE, "skip_utf8_validation": FALSE, "host": NONE, "origin": NONE, "suppress_origin": FALSE,
-        "proxy_type": NONE, "reconnect": C(0), "custom_dispatcher": FALSE,
-        "dispatcher": new_obj(run, None, "disp"),
-    }
-    env.update(over)
-    return env
+    """Environment of run_forever's nested functions (teardown, setSock, read, check, closed, handleDisconnect).
+
+    It is taken from run_forever's *own prologue*: run_forever is interpreted with the requested arguments up to its first call of
+    a nested function, and the environment that function was defined in -- every local of the prologue, whatever it is called
+    and however it was computed -- is what the nested function under analysis then runs in.  The fields of the app object are
+    put back to what the rule set up (the prologue resets some of them), and `dispatcher` is the recording stand-in the rules
+    observe.  `custom_dispatcher=TRUE` asks for a run with an external dispatcher."""
+    from .absint import CaptureSig
+    I = run.interp
+    over = dict(over)
+    custom = over.pop("custom_dispatcher", FALSE)
+    disp_stub = over.pop("dispatcher", None)
+    kwargs = {k: v for k, v in over.items() if k in _RF_PARAMS}
+    extra = {k: v for k, v in over.items() if k not in _RF_PARAMS}
+    if custom == TRUE:
+        kwargs["dispatcher"] = new_obj(run, None, "extdisp")
+    kwargs.setdefault("ping_interval", C(0))
+    kwargs.setdefault("reconnect", C(0))
+    o = run.cell(app)
+    saved_fields = dict(o.fields)
+    o.fields["sock"] = NONE   # the prologue refuses to start while a socket exists; the rule's socket is put back afterwards
+    n_eff, n_with, n_held = len(run.effects), len(run.with_stack), len(run.held)
+    stack_depth = len(run.stack)
+    run.memo["@capture"] = RF + "."
+    run.memo.pop("@captured", None)
+    try:
+        try:
+            I.call(run, I.getattr(run, app, "run_forever", None), [], kwargs, None)
+        except CaptureSig:
+            pass
+        except RaiseSig as r:
+            raise AnalysisError(f"run_forever's prologue raises {I.exc_class_name(run, r.exc)} for the arguments of this analysis")
+    finally:
+        run.memo.pop("@capture", None)
+    env = run.memo.pop("@captured", None)
+    if env is None:
+        raise AnalysisError("anchor vanished: run_forever returns without calling any of its nested functions")
+    del run.effects[n_eff:]
+    del run.with_stack[n_with:]
+    del run.held[n_held:]
+    del run.stack[stack_depth:]
+    o.fields.clear()
+    o.fields.update(saved_fields)
+    env.vars["dispatcher"] = disp_stub if disp_stub is not None else new_obj(run, None, "disp")
+    for k, v in extra.items():
+        env.vars[k] = v
+    return {"@env": env}
 
 
 def user_calls(out: Outcome) -> List:
